@@ -42,6 +42,30 @@ def handleEstim (j : Json) : R Json := do
     pure (Json.mkObj [("ok", Json.bool true), ("gen", Json.bool b),
       ("ms", Json.arr (r.map fun m => match m with | none => Json.null | some m => mixToJson m).toArray)])
 
+def memberToJson (x : Member) : Json :=
+  Json.mkObj [("i", natToJson x.1), ("mass", ratToJson x.2.mass), ("n", natToJson x.2.insts.length),
+              ("open", natToJson x.2.opens.length), ("insts", natsToJson (x.2.insts.map (·.tok.tid)))]
+
+def handleSysGen (j : Json) : R Json := do
+  let cs ← listOf compOf (← getF j "comps")
+  let ev ← listOf eventOf (← getF j "ev")
+  let fuel ← natOf (← getF j "fuel")
+  let single ← boolOf (← getF j "single")
+  if single then
+    match sysGenerate fuel cs ev with
+    | .error e => pure (Json.mkObj [("ok", Json.bool false), ("err", Json.str (errToString e))])
+    | .ok (x, tr, rest) =>
+      pure (Json.mkObj [("ok", Json.bool true), ("members", Json.arr #[memberToJson x]),
+        ("trace", Json.arr (tr.map traceItemToJson).toArray), ("rest", natToJson rest.length)])
+  else
+    let M ← ratOf (← getF j "M")
+    let g ← boolOf (← getF j "generable")
+    match sysGenerator fuel 100000 g cs M ev with
+    | .error e => pure (Json.mkObj [("ok", Json.bool false), ("err", Json.str (errToString e))])
+    | .ok (l, tr, rest) =>
+      pure (Json.mkObj [("ok", Json.bool true), ("members", Json.arr (l.map memberToJson).toArray),
+        ("trace", Json.arr (tr.map traceItemToJson).toArray), ("rest", natToJson rest.length)])
+
 def handle (j : Json) : R Json := do
   let op ← strOf (← getF j "op")
   match op with
@@ -50,6 +74,7 @@ def handle (j : Json) : R Json := do
   | "IDS" => handleIds j
   | "GEN" => handleGen j
   | "ESTIM" => handleEstim j
+  | "SYSGEN" => handleSysGen j
   | "COMPATMAT" => handleCompatMat j
   | _ => throw s!"unknown op {op}"
 
